@@ -146,3 +146,76 @@ func (pt *PredTable) Names() []string {
 	sort.Strings(out)
 	return out
 }
+
+// EvalInt evaluates an integer-valued SSA expression under a binding of leaf values.
+func EvalInt(s *Seg, v ssa.Value, bind func(ssa.Value) (int64, bool)) (int64, bool) {
+	if s != nil {
+		v = s.Resolve(v)
+	}
+	if k, ok := bind(v); ok {
+		return k, true
+	}
+	if k, ok := constInt(v); ok {
+		return k, true
+	}
+	switch t := v.(type) {
+	case *ssa.Convert:
+		return EvalInt(s, t.X, bind)
+	case *ssa.ChangeType:
+		return EvalInt(s, t.X, bind)
+	case *ssa.BinOp:
+		x, ok1 := EvalInt(s, t.X, bind)
+		y, ok2 := EvalInt(s, t.Y, bind)
+		if !ok1 || !ok2 {
+			return 0, false
+		}
+		switch t.Op {
+		case token.ADD:
+			return x + y, true
+		case token.SUB:
+			return x - y, true
+		case token.MUL:
+			return x * y, true
+		}
+	}
+	return 0, false
+}
+
+// EvalCond evaluates a boolean SSA expression built from integer comparisons, !, and
+// (through phi resolution on the segment) && / ||, under a binding of leaf values.
+func EvalCond(s *Seg, v ssa.Value, bind func(ssa.Value) (int64, bool)) (bool, bool) {
+	if s != nil {
+		v = s.Resolve(v)
+	}
+	if b, ok := constBool(v); ok {
+		return b, true
+	}
+	switch t := v.(type) {
+	case *ssa.UnOp:
+		if t.Op == token.NOT {
+			b, ok := EvalCond(s, t.X, bind)
+			return !b, ok
+		}
+	case *ssa.BinOp:
+		x, ok1 := EvalInt(s, t.X, bind)
+		y, ok2 := EvalInt(s, t.Y, bind)
+		if !ok1 || !ok2 {
+			return false, false
+		}
+		switch t.Op {
+		case token.EQL:
+			return x == y, true
+		case token.NEQ:
+			return x != y, true
+		case token.LSS:
+			return x < y, true
+		case token.LEQ:
+			return x <= y, true
+		case token.GTR:
+			return x > y, true
+		case token.GEQ:
+			return x >= y, true
+		}
+	}
+	return false, false
+}
